@@ -36,7 +36,7 @@ type srvCmd struct {
 // srvStream is the server side of one Modify RPC.
 type srvStream struct {
 	cmd      chan srvCmd
-	recvd    atomic.Int64 // requests received from the client
+	recvd    atomic.Int64  // requests received from the client
 	recvDone chan struct{} // closed when the client half-closed or the stream broke
 	ended    chan struct{} // closed when the handler returned
 	// eofEnds: return OK from the handler when the client half-closes (what a real server does)
@@ -246,17 +246,17 @@ func newFabric() (*fabric, error) {
 	spb.RegisterGRIBIServer(f.srv, f.stub)
 	go f.srv.Serve(f.lis)
 	icpt := func(ctx context.Context, desc *grpc.StreamDesc, cc *grpc.ClientConn, method string, streamer grpc.Streamer, opts ...grpc.CallOption) (grpc.ClientStream, error) {
+		f.mu.Lock()
+		p := f.cur
+		f.mu.Unlock()
+		if p == nil {
+			return streamer(ctx, desc, cc, method, opts...)
+		}
 		ctx, cancel := context.WithCancel(ctx)
 		cs, err := streamer(ctx, desc, cc, method, opts...)
 		if err != nil {
 			cancel()
 			return nil, err
-		}
-		f.mu.Lock()
-		p := f.cur
-		f.mu.Unlock()
-		if p == nil {
-			return cs, nil
 		}
 		p.cancel = cancel
 		return &probedStream{ClientStream: cs, p: p}, nil
